@@ -8,6 +8,7 @@ pub mod c12;
 pub mod c15;
 pub mod c16;
 pub mod c20;
+pub mod sample_props;
 
 pub fn dispatch(ctx: &Ctx) -> i32 {
     match ctx.id.as_str() {
@@ -16,6 +17,11 @@ pub fn dispatch(ctx: &Ctx) -> i32 {
         "C05" => c05::run(ctx),
         "C06" => c06::run(ctx),
         "C07" => c07::run(ctx),
+        "C02" => sample_props::run(ctx, sample_props::Which::C02),
+        "C08" => sample_props::run(ctx, sample_props::Which::C08),
+        "C09" => sample_props::run(ctx, sample_props::Which::C09),
+        "C10" => sample_props::run(ctx, sample_props::Which::C10),
+        "C11" => sample_props::run(ctx, sample_props::Which::C11),
         "C12" => c12::run(ctx),
         "C15" => c15::run(ctx),
         "C16" => c16::run(ctx),
